@@ -83,6 +83,9 @@ class World(WorldBase):
             "p_default_args": rng.choice([0.0, 0.3]),
             "maxN": rng.choice([6, 12, 24, 40, 40, 130, 130]),
             "maxT": rng.randint(1, 3),
+            "p_env": rng.choice([0.0, 0.1, 0.3]),
+            "p_thread": rng.choice([0.0, 0.0, 0.2]),
+            "p_nest": rng.choice([0.0, 0.1, 0.3]),
             "faults": [],
             "hold_max": 0,
         }
@@ -124,7 +127,7 @@ class World(WorldBase):
             if any(not self.files[p]["weights"] for p in live):
                 choices += ["stub_weights"]
         if readable:
-            choices += ["read_frame"] * 8
+            choices += ["read_frame"] * 8 + ["skip_frame"]
         if self.handles:
             choices += ["close"]
         if sw["faults"] and self.held:
@@ -164,10 +167,24 @@ class World(WorldBase):
                 pool = [max(1, maxcn - 1), maxcn, maxcn + 1, 200, None, 65, 100, 129]
             op = {"op": "read_frame", "h": h, "nmax": rng.choice(pool)}
             fk = [k for k in sw["faults"] if k in ("short_read", "oserror_read", "interrupt")]
+            cfg = self.configs[self.files[d["path"]]["cfg"]]
             if fk and rng.random() < sw.get("p_fault", 0):
-                cfg = self.configs[self.files[d["path"]]["cfg"]]
                 op["fault"] = {"kind": rng.choice(fk), "at": rng.randint(1, cfg.N + 1)}
+            else:
+                self.gen_env(rng, op)
+                others = sorted(x for x in readable if x != h)
+                if others and rng.random() < sw.get("p_nest", 0.0):
+                    # another client reads a frame from its own handle while this read is inside an
+                    # I/O call; preferably a frame of the same size with the same requested maximum
+                    same = [x for x in others if self.configs[self.files[self.handles[x]["path"]]["cfg"]].N == cfg.N]
+                    h2 = rng.choice(same if same and rng.random() < 0.7 else others)
+                    inner = {"op": rng.choice(["read_frame", "read_frame", "skip_frame"]), "h": h2}
+                    if inner["op"] == "read_frame":
+                        inner["nmax"] = op["nmax"] if rng.random() < 0.7 else rng.choice(pool)
+                    op["nest"] = {"at": rng.randint(1, cfg.Ns[d["cursor"]] + 1), "op": inner}
             return op
+        if kind == "skip_frame":
+            return {"op": "skip_frame", "h": rng.choice(sorted(readable))}
         if kind == "close":
             return {"op": "close", "h": rng.choice(sorted(self.handles))}
         if kind == "release":
@@ -193,6 +210,11 @@ class World(WorldBase):
                 "tvary": rng.random() < 0.2,
                 "subseed": rng.randrange(1 << 40),
             }
+            if not exact and rng.random() < 0.15:
+                # far from the origin and / or stored in single precision
+                rec["f32"] = rng.random() < 0.5
+                rec["far"] = rng.choice([0.0, 1e2, 1e3] if rec["f32"] else [1e5, 1e7, 1e8])
+                rec["N"] = min(rec["N"], 14)
             c = Config(rec)
             if c.margins_ok():
                 name = f"c{self.next_c}"
@@ -256,7 +278,40 @@ class World(WorldBase):
             op["fault"] = {"kind": fkind, "at": self.pick_fault_event(rng, nev),
                            "hold": rng.randint(0, sw["hold_max"])}
             self.ctx.probe("dry_runs")
+        else:
+            self.gen_env(rng, op)
+            readable = sorted(h for h, d in self.handles.items() if not d["stale"] and d["path"] != op["path"]
+                              and d["cursor"] < self.configs[self.files[d["path"]]["cfg"]].T)
+            if readable and rng.random() < sw.get("p_nest", 0.0):
+                h2 = rng.choice(readable)
+                rows = self.files[self.handles[h2]["path"]]["frames"][self.handles[h2]["cursor"]]
+                inner = {"op": "read_frame", "h": h2, "nmax": rng.choice([max(r[1] for r in rows), 200, None, 2])}
+                op["nest"] = {"at": rng.randint(1, 3 * cfg.N), "op": inner}
         return op
+
+    def gen_env(self, rng, op):
+        """What the calling client did to its process before the call: changed numpy's print
+        options (people do, to read their own output), or started a worker thread for the call."""
+        sw = self.swarm
+        if rng.random() < sw.get("p_env", 0.0):
+            op["printopts"] = {"threshold": rng.choice([5, 50, 1000]), "linewidth": rng.choice([20, 75, 200]),
+                               "edgeitems": rng.choice([1, 3]), "precision": rng.choice([3, 8])}
+        if rng.random() < sw.get("p_thread", 0.0):
+            op["thread"] = True
+
+    def client(self, op, fn):
+        """fn as the client calls it: after its own changes to the process, maybe from a worker thread."""
+        po = op.get("printopts")
+
+        def run():
+            if po:
+                np.set_printoptions(**po)
+                self.ctx.probe("client_changed_numpy_printoptions")
+            return fn()
+        if op.get("thread"):
+            self.ctx.probe("call_from_worker_thread")
+            return self.in_thread(run)
+        return run
 
     # ------------------------------------------------------------------- execution ----
     def invoke_producer(self, op):
@@ -323,7 +378,10 @@ class World(WorldBase):
         self._stale_handles(path)
         self.unack(path)
         self.files.pop(path, None)
-        res, exc, (nev, dig, fired) = self.call(lambda: self.invoke_producer(op), fault)
+        if fault is None and op.get("nest"):
+            fault = self.nest_plan(op["nest"])
+        res, exc, (nev, dig, fired) = self.call(self.client(op, lambda: self.invoke_producer(op)), fault)
+        self.raise_nested()
         tag = f"produce:{kind}"
         if exc is not None:
             if fired and fired[0] in ("interrupt", "oserror_write"):
@@ -466,7 +524,10 @@ class World(WorldBase):
         n_t = cfg.Ns[d["cursor"]]
         fn = (lambda: read_neighbors(f, n_t)) if nmax is None else (lambda: read_neighbors(f, n_t, nmax))
         fault = op.get("fault")
-        res, exc, (nev, dig, fired) = self.call(fn, fault)
+        if fault is None and op.get("nest"):
+            fault = self.nest_plan(op["nest"])
+        res, exc, (nev, dig, fired) = self.call(self.client(op, fn), fault)
+        self.raise_nested()
         tag = f"read_frame:{fi['kind']}"
         if exc is not None:
             if fired and fired[0] in ("oserror_read", "interrupt"):
@@ -507,6 +568,31 @@ class World(WorldBase):
         # the client keeps what it was given: later reads must not change an earlier frame
         self.delivered = (self.delivered + [(res, want, f"frame {d['cursor'] - 1} of {d['path']}", tag)])[-12:]
         return f"{h} t={d['cursor'] - 1} nmax={nmax} ev={nev} io={dig}"
+
+    def do_skip_frame(self, op):
+        """The client steps over a frame itself, with the text API of the very handle it later
+        gives to read_neighbors again (header line + one line per particle)."""
+        d = self.handles.get(op["h"])
+        if d is None or d["stale"]:
+            raise Refuse("no handle")
+        fi = self.files[d["path"]]
+        cfg = self.configs[fi["cfg"]]
+        if d["cursor"] >= cfg.T:
+            raise Refuse("at end")
+        f = d["f"]
+        n_t = cfg.Ns[d["cursor"]]
+
+        def skip():
+            return [f.readline() for _ in range(n_t + 1)]
+        lines, exc, _ = self.call(skip)
+        if exc is not None:
+            self.drop_last()
+            raise Violation("C05/skip-raised:skip_frame", f"{exc}")
+        if len(lines) != n_t + 1 or not lines[0].startswith("id") or any(not ln.endswith("\n") for ln in lines):
+            raise Violation("C05/cursor:skip_frame", f"handle {op['h']} was not at the start of frame {d['cursor']} of {d['path']}: {lines[:1]}")
+        d["cursor"] += 1
+        self.ctx.probe("frame_skipped_by_client_with_text_api")
+        return f"{op['h']} skipped t={d['cursor'] - 1}"
 
     def do_close(self, op):
         d = self.handles.pop(op["h"], None)
@@ -549,10 +635,12 @@ class World(WorldBase):
         out = []
         for o in ops:
             f = o.get("fault")
-            out.append((o["op"], o.get("kind"), o.get("path"), o.get("h"),
+            n = o.get("nest")
+            out.append((o["op"], o.get("kind"), o.get("path"), o.get("h"), bool(o.get("printopts")), bool(o.get("thread")),
+                        (n["op"]["op"], n["op"].get("h"), min(n["at"], 20)) if n else None,
                         None if o.get("nmax", 0) is None else min(o.get("nmax", 0), 9),
                         (f["kind"], min(f["at"], 20), f.get("hold")) if f else None))
         return tuple(out)
 
     def nontrivial(self, ops):
-        return sum(1 for o in ops if o["op"] in ("produce", "read_frame", "stub_weights", "release")) >= 3
+        return sum(1 for o in ops if o["op"] in ("produce", "read_frame", "skip_frame", "stub_weights", "release")) >= 3
